@@ -215,31 +215,48 @@ def pExpr (env : PEnv) : Nat → Float → Nat → PRes Expr
               | .error e => .error e
               | .ok rg => .ok (.map rg .nil none, i)
           else
-            -- `any("list or map", parseList(t), parseMap(t))`
-            let asList : PRes Expr :=
-              match pList env f [] i with
+            -- `any("list or map", parseListOrMap(t))`: one pass; after the first element a `:`
+            -- decides for a map.  (`tryParse` turns every failure into the syntax error.)
+            if (env.peek i).kind == "]" then
+              match env.mustEat "]" i with
               | .error e => .error e
-              | .ok (els, i) =>
-                match env.mustEat "]" i with
+              | .ok (rb, i) =>
+                match Pos.range t.pos rb.pos with
                 | .error e => .error e
-                | .ok (rb, i) =>
-                  match Pos.range t.pos rb.pos with
-                  | .error e => .error e
-                  | .ok rg => .ok (.list rg (ExprList.ofList els.reverse) none, i)
-            match asList with
-            | .ok r => .ok r
-            | .error .syntax =>
-              -- recovered by `tryParse`, cursor rewound to `i`
-              match pMap env f [] i with
+                | .ok rg => .ok (.list rg .nil none, i)
+            else
+              match pExpr env f 0 i with
               | .error e => .error e
-              | .ok (ps, i) =>
-                match env.mustEat "]" i with
-                | .error e => .error e
-                | .ok (rb, i) =>
-                  match Pos.range t.pos rb.pos with
+              | .ok (fst, i) =>
+                if (env.peek i).kind == ":" then
+                  match pExpr env f 0 (env.adv i) with
                   | .error e => .error e
-                  | .ok rg => .ok (.map rg (PairList.ofList ps.reverse) none, i)
-            | .error e => .error e
+                  | .ok (v, i) =>
+                    let rest : PRes (List (Expr × Expr)) :=
+                      if (env.peek i).kind == "," then pMap env f [(fst, v)] (env.adv i)
+                      else .ok ([(fst, v)], i)
+                    match rest with
+                    | .error e => .error e
+                    | .ok (ps, i) =>
+                      match env.mustEat "]" i with
+                      | .error e => .error e
+                      | .ok (rb, i) =>
+                        match Pos.range t.pos rb.pos with
+                        | .error e => .error e
+                        | .ok rg => .ok (.map rg (PairList.ofList ps.reverse) none, i)
+                else
+                  let rest : PRes (List Expr) :=
+                    if (env.peek i).kind == "," then pList env f [fst] (env.adv i)
+                    else .ok ([fst], i)
+                  match rest with
+                  | .error e => .error e
+                  | .ok (els, i) =>
+                    match env.mustEat "]" i with
+                    | .error e => .error e
+                    | .ok (rb, i) =>
+                      match Pos.range t.pos rb.pos with
+                      | .error e => .error e
+                      | .ok rg => .ok (.list rg (ExprList.ofList els.reverse) none, i)
         | .obj =>
           match pObj env f [] i with
           | .error e => .error e
